@@ -439,3 +439,30 @@ Theorem C10_field_verdict_definite :
     V.Corr.CheckTG.field_verdict r s t f = V.Corr.CheckTG.DFail (V.Corr.CheckTG.FMissing m).
 Proof. exact V.Proofs.MissingIdVerdicts.field_verdict_definite. Qed.
 Print Assumptions C10_field_verdict_definite.
+
+(** the whole claim of the run-time checker [prop_missing_id_paths] (every [resolve_type_path]
+    outcome and the generation outcome against the independent descent) evaluated on the MODEL's
+    own outcomes is [true]: for a case whose recorded outcomes are the model's ([corr_paths],
+    [corr_gen]) on a registry of the class, with unique item paths and no recursive derives (the
+    property's quantifier).  So what the checker demands of the implementation is a consequence of
+    the theorems above plus the behavioural correspondence. *)
+From V Require Corr.RunTG.
+
+Theorem C10_checker_on_model :
+  forall (c : V.Corr.RunTG.tg_case) rank m,
+    V.Model.MissingId.generable_but (V.Corr.RunTG.tg_reg c)
+      (V.Corr.RunTG.settings_of (V.Corr.RunTG.tg_spec c)) rank m ->
+    V.Model.Renumber.unique_item_paths (V.Corr.RunTG.tg_reg c)
+      (V.Corr.RunTG.settings_of (V.Corr.RunTG.tg_spec c)) ->
+    dr_recursive (s_dreg (V.Corr.RunTG.settings_of (V.Corr.RunTG.tg_spec c))) = [] ->
+    V.Corr.RunTG.tg_paths c =
+      map (fun i => V.Corr.RunTG.obs_of
+                      (V.Corr.RunTG.model_path (V.Corr.RunTG.tg_reg c)
+                         (V.Corr.RunTG.settings_of (V.Corr.RunTG.tg_spec c)) i))
+          (V.Corr.RunTG.ids_of (V.Corr.RunTG.tg_reg c)) ->
+    V.Corr.RunTG.tg_gen c =
+      V.Corr.RunTG.obs_of (V.Corr.RunTG.model_gen (V.Corr.RunTG.tg_reg c)
+                             (V.Corr.RunTG.settings_of (V.Corr.RunTG.tg_spec c))) ->
+    V.Corr.CheckTG.prop_missing_id_paths c = true.
+Proof. exact V.Proofs.MissingIdVerdicts.prop_missing_id_paths_on_model. Qed.
+Print Assumptions C10_checker_on_model.
